@@ -14,6 +14,7 @@ pub enum Profile {
     Growth,
     Scan,
     Big,
+    Batch,
 }
 
 pub const PROFILES: [Profile; 8] = [
@@ -38,6 +39,7 @@ impl Profile {
             "growth" => Self::Growth,
             "scan" => Self::Scan,
             "big" => Self::Big,
+            "batch" => Self::Batch,
             _ => return None,
         })
     }
@@ -51,6 +53,7 @@ impl Profile {
             Self::Growth => "growth",
             Self::Scan => "scan",
             Self::Big => "big",
+            Self::Batch => "batch",
         }
     }
 }
@@ -84,6 +87,7 @@ impl GenCfg {
 pub fn gen_cfg(rng: &mut Rng, kind: &'static str, profile: Profile) -> GenCfg {
     let cap = match profile {
         Profile::Big => Some(rng.pick(&[129u64, 150, 200, 256])),
+        Profile::Batch => rng.pick(&[None, Some(1000u64), Some(400), Some(130)]),
         Profile::Scan => Some(rng.pick(&[2u64, 3, 4, 5, 8])),
         _ => match rng.below(12) {
             0 => None,
@@ -106,6 +110,9 @@ pub fn gen_cfg(rng: &mut Rng, kind: &'static str, profile: Profile) -> GenCfg {
             WeigherKind::Val,
         ]),
         Profile::Big => WeigherKind::None,
+        Profile::Batch => {
+            if rng.chance(1, 3) { WeigherKind::Val } else { WeigherKind::None }
+        }
         _ => match rng.below(8) {
             0..=2 => WeigherKind::None,
             3 => WeigherKind::Const(0),
@@ -124,6 +131,12 @@ pub fn gen_cfg(rng: &mut Rng, kind: &'static str, profile: Profile) -> GenCfg {
     };
     let durs = [0u64, SEC, 3 * SEC, 10 * SEC];
     let (ttl, tti) = match profile {
+        Profile::Batch if weigher == WeigherKind::Val && rng.chance(1, 2) => (None, None),
+        Profile::Batch => match rng.below(3) {
+            0 => (Some(rng.pick(&[SEC, 3 * SEC])), None),
+            1 => (None, Some(rng.pick(&[SEC, 3 * SEC]))),
+            _ => (Some(3 * SEC), Some(SEC)),
+        },
         Profile::Boundary => match rng.below(3) {
             0 => (Some(rng.pick(&durs)), None),
             1 => (None, Some(rng.pick(&durs))),
@@ -179,7 +192,7 @@ pub fn gen_case(seed: u64, kind: &'static str, profile: Profile, len: usize, whi
         }
     };
     let step_choices: Vec<u64> = match profile {
-        Profile::Boundary => {
+        Profile::Boundary | Profile::Batch => {
             let mut v = vec![SEC, SEC / 2, 500_000_000, 1, SEC - 1];
             if let Some(t) = cfg.ttl { v.push(t); v.push(t.saturating_sub(1)); v.push(t + 1); }
             if let Some(t) = cfg.tti { v.push(t); v.push(t.saturating_sub(1)); v.push(t + 1); }
@@ -187,6 +200,52 @@ pub fn gen_case(seed: u64, kind: &'static str, profile: Profile, len: usize, whi
         }
         _ => vec![SEC, SEC / 2, 2 * SEC, 100_000_000, 500_000_000, 3 * SEC, 501_000_000],
     };
+    if profile == Profile::Batch {
+        // Phases: a burst of inserts at one clock reading (more than one eviction batch),
+        // a clock step to / beyond the deadline, then lookups of keys from all over the
+        // burst, so that purge batch limits matter.
+        let rounds = 1 + rng.below(3);
+        for _ in 0..rounds {
+            let n = 105 + rng.below(260);
+            let base = rng.below(50);
+            let heavy = cfg.weigher == WeigherKind::Val;
+            for i in 0..n {
+                let v = if heavy { rng.below(2) } else { rng.below(12) };
+                out.push(format!("ins {} {}", base + i, v));
+                if rng.chance(1, 40) {
+                    out.push(format!("get {}", base + rng.below(i + 1)));
+                }
+            }
+            if sync && rng.chance(1, 2) {
+                out.push("sync".into());
+            }
+            out.push("snap".into());
+            if heavy {
+                // an in-place update far heavier than the capacity, then fresh keys
+                let k = base + rng.below(n);
+                push(&mut out, format!("ins {} {}", k, 2000 + rng.below(3000)));
+                push(&mut out, format!("ins {} 1", base + n + 1));
+                push(&mut out, format!("get {}", base + n + 1));
+                push(&mut out, format!("ins {} 0", base + n + 2));
+            }
+            let d = rng.pick(&step_choices);
+            out.push(format!("adv {}", d));
+            for _ in 0..(3 + rng.below(12)) {
+                let k = base + rng.below(n);
+                match rng.below(6) {
+                    0 | 1 => push(&mut out, format!("has {}", k)),
+                    2 | 3 => push(&mut out, format!("get {}", k)),
+                    4 => push(&mut out, "iter".into()),
+                    _ => push(&mut out, format!("ins {} {}", k, rng.below(12))),
+                }
+            }
+            if rng.chance(1, 2) {
+                out.push(format!("adv {}", rng.pick(&step_choices)));
+            }
+        }
+        out.push("iter".into());
+        return out;
+    }
     for _ in 0..len {
         let r = rng.below(100);
         let (p_ins, p_get, p_has, p_iter, p_inv, p_invall, p_invif, p_sync, p_adv): (u64, u64, u64, u64, u64, u64, u64, u64, u64) =
@@ -198,7 +257,7 @@ pub fn gen_case(seed: u64, kind: &'static str, profile: Profile, len: usize, whi
                 Profile::Churn => (38, 14, 4, 2, 24, 3, 3, 6, 6),
                 Profile::Growth => (50, 18, 4, 3, 6, 1, 2, 8, 8),
                 Profile::Scan => (40, 45, 2, 1, 3, 0, 0, 6, 3),
-                Profile::Big => (55, 20, 2, 1, 8, 1, 1, 2, 10),
+                Profile::Big | Profile::Batch => (55, 20, 2, 1, 8, 1, 1, 2, 10),
             };
         let mut acc = 0;
         let mut pick = |p: u64| { acc += p; r < acc };
